@@ -29,7 +29,7 @@ MODULE3 = "LdarModel.Props.SimCalendar"
 FILE3 = "LdarModel/Props/SimCalendar.lean"
 
 MANIFEST_ENTRY = {
-    "text": "Integrated simulation model: one executable Lean function (Sim.simDay / simRun) composing the component models (Emission, Heap, Sensor, Crew, Cost, Queue/Planner, FollowUp, World) into the day loop of LdarSim.run_simulation + Program.do_daily_program_deployment, all randomness and environment as inputs; composition theorems in Props/Sim.lean (sim_tag_chain, sim_row_world, sim_lifecycle, sim_cost_identity / sim_cost_program / sim_repairs_once, sim_zero_coverage, sim_issued_in_months, sim_repair_chain, sim_ledger / sim_reconstruct, sim_mitigation / sim_never_worse, sim_weather / sim_reqs_ok / sim_crews_within_workday, sim_sched_runDays; calendar: dateOf_valid / dateOf_strictMono / dateOf_injective / dateOf_year_mono / dateOf_year_interval, ord_nextDate / ord_dateOf (Props/SimCalendar.lean: the day-loop calendar and the summaries' day ordinal agree; chrono_of_calendar / sim_done_le_required: C06's never-more-than-required in the integrated simulation with the calendar hypothesis discharged, md_pairwise_of_calendar / sim_history_dates / sim_all_done_when_feasible for the feasible half, sim_not_deployed_never_surveyed); Sim : Sim_statement; counterexamples for unsorted pending lists), validated against whole real runs: every timeseries column and every emission-record column of every (program, simulation) of generated configurations.",
+    "text": "Integrated simulation model: one executable Lean function (Sim.simDay / simRun) composing the component models (Emission, Heap, Sensor, Crew, Cost, Queue/Planner, FollowUp, World) into the day loop of LdarSim.run_simulation + Program.do_daily_program_deployment, all randomness and environment as inputs; composition theorems in Props/Sim.lean (sim_tag_chain, sim_row_world, sim_lifecycle, sim_cost_identity / sim_cost_program / sim_repairs_once, sim_zero_coverage, sim_issued_in_months, sim_repair_chain, sim_ledger / sim_reconstruct, sim_mitigation / sim_never_worse, sim_weather / sim_reqs_ok / sim_crews_within_workday, sim_sched_runDays; calendar: dateOf_valid / dateOf_strictMono / dateOf_injective / dateOf_year_mono / dateOf_year_interval, ord_nextDate / ord_dateOf (Props/SimCalendar.lean: the day-loop calendar and the summaries' day ordinal agree; chrono_of_calendar / sim_done_le_required: C06's never-more-than-required in the integrated simulation with the calendar hypothesis discharged, md_pairwise_of_calendar / sim_history_dates / sim_all_done_when_feasible for the feasible half, sim_not_deployed_never_surveyed, sim_sched_step / sim_stationary_day); Sim : Sim_statement; counterexamples for unsorted pending lists), validated against whole real runs: every timeseries column and every emission-record column of every (program, simulation) of generated configurations.",
     "design_ref": "lean/LdarModel/Model/Sim.lean (header: source map, inputs) and lean/LdarModel/Props/Sim.lean (header: theorem list); DESIGN.md section 10 entry to be added by the integrator from the builder report",
     "note": "engine-level extra; trusted: Lean kernel + standard axioms; the observation-only wrappers of harness/wholerun_worker.py (install_sim_wrappers) that record coverage rolls, travel times, weather outcomes, daylight, repair cost draws and the scenario; dyadic grids for rates and money; quantification error 0 in the generated configurations; the calendar (date of day n) is an input",
     "technique": "lean-proof + whole-run differential correspondence",
